@@ -107,6 +107,17 @@ type eventSpec struct {
 
 var events = []eventSpec{{"internal/future", "Future", "closed", "done", 1}}
 
+// Event 2: publication of an inner map into its container. An inner map of a tracked map-of-maps field (fieldSpec.Inner)
+// is an object of its own: it is CREATED by one goroutine (make / maps.Clone / a composite literal / a function that
+// returns such a fresh map), possibly filled while it is still private to its creator, and becomes reachable by other
+// goroutines only through the store `B.f[k] = m` into the container (the store is the "fire" of the once-event, the
+// creator is its only claimant). Sites on the still-private map get phase "claimed" (after-claim), every site that
+// reaches an inner map THROUGH the container (B.f[k], a local loaded from it, a parameter bound to it) gets phase
+// "fired" (after-fire): whoever got the reference from the container got it after the store. With this, a copy-on-write
+// table (inner maps never written after publication, read without the lock) is accepted as ONCE-PUBLISHED - and a write
+// through an alias after the store, or a write through the container outside the lock, is a discipline violation.
+const publicationEvent = 2
+
 // Thread roles. Every function is "any" (callable from any goroutine) unless listed here. A listed
 // function runs only on the goroutine that currently processes the mailbox of the actor whose Context
 // it works on (at most one at a time: C01_single_consumer). The generator checks the list against the
@@ -187,6 +198,7 @@ func (a Access) Where() string { return fmt.Sprintf("%s:%d:%d", a.File, a.Line, 
 
 type Table struct {
 	Accesses   []Access
+	Panics     []PanicSite // the panic-site inventory (panics.go)
 	LockNames  map[int]string
 	Inits      int      // composite-literal field initialisers of tracked fields (not accesses)
 	Notes      []string // demotions, unresolved selectors
@@ -363,6 +375,8 @@ type pkgData struct {
 	info    *types.Info
 	fields  map[*types.Var]*fieldInfo
 	imports map[*ast.File]map[string]string // local name -> import path
+	funcs   map[string]*ast.FuncDecl         // "pkg.Type.method" / "pkg.func" -> declaration
+	funcFile map[*ast.FuncDecl]string        // declaration -> relative file name
 }
 
 type generator struct {
@@ -373,6 +387,14 @@ type generator struct {
 	// methods whose return statement hands out the map of a tracked field of their receiver: name -> field
 	containerHelpers map[string]*fieldSpec
 	epochs           int
+	// publication of inner maps (event 2): locals that are stored into a tracked container (or returned by a function whose
+	// result is stored into one), the functions whose result is stored, and the functions that return a fresh map
+	pubLocals  map[types.Object]*fieldSpec
+	publishers map[string]*fieldSpec
+	freshRet   map[string]bool
+	following  map[string]bool // callee inlinings in progress (recursion guard)
+	alwaysInit map[*fieldSpec]bool // tracked map fields initialised by every constructor (panics.go)
+	monotone   map[*fieldSpec]bool // tracked map fields only ever assigned fresh maps (panics.go)
 }
 
 // Generate inventories the tree at repo.
@@ -429,11 +451,24 @@ func Generate(repo string) (*Table, error) {
 	for _, p := range pkgs {
 		g.findContainerHelpers(p)
 	}
+	g.pubLocals, g.publishers, g.freshRet, g.following = map[types.Object]*fieldSpec{}, map[string]*fieldSpec{}, map[string]bool{}, map[string]bool{}
+	for _, p := range pkgs {
+		g.findFreshReturning(p)
+	}
+	for round := 0; round < 3; round++ {
+		for _, p := range pkgs {
+			g.findPublications(p)
+		}
+	}
+	g.findAlwaysInit(pkgs)
 	for _, p := range pkgs {
 		g.inventory(p)
 	}
 	for i := range g.tab.Accesses {
 		g.tab.Accesses[i].Site = i
+	}
+	for i := range g.tab.Panics {
+		g.tab.Panics[i].ID = i
 	}
 	return g.tab, nil
 }
@@ -444,7 +479,8 @@ func (g *generator) load(dir string) (*pkgData, error) {
 	if err != nil {
 		return nil, err
 	}
-	p := &pkgData{dir: dir, fset: token.NewFileSet(), fields: map[*types.Var]*fieldInfo{}, imports: map[*ast.File]map[string]string{}}
+	p := &pkgData{dir: dir, fset: token.NewFileSet(), fields: map[*types.Var]*fieldInfo{}, imports: map[*ast.File]map[string]string{},
+		funcs: map[string]*ast.FuncDecl{}, funcFile: map[*ast.FuncDecl]string{}}
 	var names []string
 	for _, e := range ents {
 		n := e.Name()
@@ -505,6 +541,14 @@ func (g *generator) load(dir string) (*pkgData, error) {
 	pkg, _ := conf.Check("github.com/kercylan98/vivid/"+dir, p.fset, p.files, p.info)
 	if pkg == nil {
 		return nil, fmt.Errorf("type check of %s produced no package", dir)
+	}
+	for i, f := range p.files {
+		for _, d := range f.Decls {
+			if fd, ok := d.(*ast.FuncDecl); ok && fd.Body != nil {
+				p.funcs[funcName(p.name, fd)] = fd
+				p.funcFile[fd] = p.fnames[i]
+			}
+		}
 	}
 	// classify the fields of every struct declared in the package from the declared type expression
 	for _, f := range p.files {
@@ -756,10 +800,12 @@ type flow struct {
 	locks map[lockKey]bool // held -> exclusive?
 	phase map[string]int   // base -> phase of the completion event
 	epoch map[lockKey]int  // held -> which acquisition (Lock statement instance) this is; -1: differs between paths
+	nonnil   map[string]bool  // expressions (locals, field selectors) holding a map established non-nil on every path (panics.go)
+	deferred map[lockKey]bool // locks whose unlock has been deferred in this function
 }
 
 func newFlow() *flow {
-	return &flow{locks: map[lockKey]bool{}, phase: map[string]int{}, epoch: map[lockKey]int{}}
+	return &flow{locks: map[lockKey]bool{}, phase: map[string]int{}, epoch: map[lockKey]int{}, nonnil: map[string]bool{}, deferred: map[lockKey]bool{}}
 }
 
 func (f *flow) clone() *flow {
@@ -773,12 +819,23 @@ func (f *flow) clone() *flow {
 	for k, v := range f.phase {
 		n.phase[k] = v
 	}
+	for k, v := range f.nonnil {
+		n.nonnil[k] = v
+	}
+	for k, v := range f.deferred {
+		n.deferred[k] = v
+	}
 	return n
 }
 
 func (f *flow) equal(o *flow) bool {
-	if len(f.locks) != len(o.locks) || len(f.phase) != len(o.phase) {
+	if len(f.locks) != len(o.locks) || len(f.phase) != len(o.phase) || len(f.nonnil) != len(o.nonnil) {
 		return false
+	}
+	for k := range f.nonnil {
+		if !o.nonnil[k] {
+			return false
+		}
 	}
 	for k, v := range f.locks {
 		if w, ok := o.locks[k]; !ok || w != v {
@@ -824,6 +881,14 @@ func meet(fs []*flow) *flow {
 				delete(r.phase, k)
 			}
 		}
+		for k := range r.nonnil {
+			if !o.nonnil[k] {
+				delete(r.nonnil, k)
+			}
+		}
+		for k := range o.deferred {
+			r.deferred[k] = true
+		}
 	}
 	return r
 }
@@ -854,6 +919,12 @@ type walker struct {
 	outer  map[types.Object]containerAlias
 	nclos  int
 	fdecl  *ast.FuncDecl
+	fresh  map[types.Object]*fieldSpec // locals holding a still private map that will be published into a tracked container
+	depth  int                         // callee inlining depth (followCallee)
+	only   map[types.Object]bool       // non-nil: a sub-walker following one parameter; records only accesses made through aliases
+	allow  bool                        // (restricted mode) the emission in progress goes through a followed alias
+	quiet  bool                        // pre-pass walker: resolves fields only, writes nothing
+	okOf   map[types.Object]string     // `x, ok := M[k]`: ok -> printed x (panics.go)
 }
 
 func (g *generator) inventory(p *pkgData) {
@@ -864,7 +935,7 @@ func (g *generator) inventory(p *pkgData) {
 				continue
 			}
 			tn, rn := recvInfo(fd)
-			w := &walker{g: g, p: p, file: p.fnames[i], fn: funcName(p.name, fd), recv: rn, recvT: tn, alias: map[types.Object]aliasInfo{}, outer: map[types.Object]containerAlias{}, fdecl: fd}
+			w := &walker{g: g, p: p, file: p.fnames[i], fn: funcName(p.name, fd), recv: rn, recvT: tn, alias: map[types.Object]aliasInfo{}, outer: map[types.Object]containerAlias{}, fresh: map[types.Object]*fieldSpec{}, fdecl: fd}
 			w.owner = g.owner[w.fn]
 			w.selfs = selfBases(tn, rn)
 			fl := newFlow()
@@ -873,7 +944,7 @@ func (g *generator) inventory(p *pkgData) {
 		// package-level variable initialisers
 		for _, d := range f.Decls {
 			if gd, ok := d.(*ast.GenDecl); ok && gd.Tok == token.VAR {
-				w := &walker{g: g, p: p, file: p.fnames[i], fn: p.name + ".<package var>", alias: map[types.Object]aliasInfo{}, outer: map[types.Object]containerAlias{}, selfs: map[string]bool{}}
+				w := &walker{g: g, p: p, file: p.fnames[i], fn: p.name + ".<package var>", alias: map[types.Object]aliasInfo{}, outer: map[types.Object]containerAlias{}, fresh: map[types.Object]*fieldSpec{}, selfs: map[string]bool{}}
 				fl := newFlow()
 				for _, s := range gd.Specs {
 					for _, v := range s.(*ast.ValueSpec).Values {
@@ -916,6 +987,9 @@ func (w *walker) field(e ast.Expr) (*fieldInfo, string, bool) {
 			if _, used := w.p.info.Uses[se.Sel]; used {
 				return nil, "", false
 			}
+			if w.quiet {
+				return nil, "", false
+			}
 			w.g.tab.Unresolved++
 			w.g.tab.Notes = append(w.g.tab.Notes, fmt.Sprintf("unresolved: %s `%s` in %s has the name of a tracked field but could not be typed; kept as an unprotected write", w.p.fset.Position(se.Pos()), exprString(se), w.fn))
 			for _, fi := range w.p.fields {
@@ -928,7 +1002,10 @@ func (w *walker) field(e ast.Expr) (*fieldInfo, string, bool) {
 	return nil, "", false
 }
 
-func (w *walker) emit(pos token.Pos, loc int, write, atomic bool, base string, fl *flow, e ast.Expr, note string) {
+func (w *walker) emit(pos token.Pos, loc int, write, atomic bool, base string, fl *flow, e ast.Expr, note string) int {
+	if w.quiet || (w.only != nil && !w.allow) {
+		return -1
+	}
 	position := w.p.fset.Position(pos)
 	a := Access{File: w.file, Line: position.Line, Col: position.Column, Func: w.fn, Loc: loc, Write: write, Atomic: atomic, Base: base, Expr: exprString(e), Note: note}
 	a.Owner = w.owner && w.selfs[base]
@@ -960,6 +1037,7 @@ func (w *walker) emit(pos token.Pos, loc int, write, atomic bool, base string, f
 		}
 	}
 	w.g.tab.Accesses = append(w.g.tab.Accesses, a)
+	return len(w.g.tab.Accesses) - 1
 }
 
 // closure walks a function literal as a function of its own: nothing held, no phase.
@@ -1102,6 +1180,7 @@ func (w *walker) stmt(s ast.Stmt, fl *flow) bool {
 					fl.epoch[k] = w.g.epochs
 				}
 			default:
+				w.unlockSite(x.Pos(), x.X, k, op, fl, false)
 				delete(fl.locks, k)
 				delete(fl.epoch, k)
 			}
@@ -1130,6 +1209,9 @@ func (w *walker) stmt(s ast.Stmt, fl *flow) bool {
 					if len(vs.Values) == 1 && len(vs.Names) >= 1 {
 						w.maybeAlias(vs.Names[0], vs.Values[0])
 						w.maybeContainerAlias(vs.Names[0], vs.Values[0], fl)
+						if w.only == nil {
+							w.noteDefinition(vs.Names[0], vs.Values[0], len(vs.Names) == 1)
+						}
 					}
 					for _, v := range vs.Values {
 						w.expr(v, fl)
@@ -1160,7 +1242,10 @@ func (w *walker) stmt(s ast.Stmt, fl *flow) bool {
 		}
 		return false
 	case *ast.DeferStmt:
-		if _, _, ok := w.lockCall(x.Call); ok {
+		if k, op, ok := w.lockCall(x.Call); ok {
+			if op == "Unlock" || op == "RUnlock" {
+				w.unlockSite(x.Pos(), x, k, op, fl, true)
+			}
 			return false // held to the end of the function
 		}
 		for _, a := range x.Call.Args {
@@ -1174,6 +1259,8 @@ func (w *walker) stmt(s ast.Stmt, fl *flow) bool {
 		return false
 	case *ast.SendStmt:
 		if fi, b, ok := w.field(x.Chan); ok && fi.spec != nil && fi.kind == kChan {
+			ph := fl.phase[b]
+			w.psite(x.Pos(), "send", x, ph == 1, map[bool]string{true: "sent by the claimant of the once-event, before it closes the channel", false: "not in the claimed phase of the channel's once-event"}[ph == 1], fi.spec.Loc, ph, 1)
 			w.emit(x.Chan.Pos(), fi.spec.Loc, false, true, b, fl, x.Chan, "channel send")
 		} else {
 			w.expr(x.Chan, fl)
@@ -1184,6 +1271,7 @@ func (w *walker) stmt(s ast.Stmt, fl *flow) bool {
 		w.stmt(x.Init, fl)
 		w.expr(x.Cond, fl)
 		thenF, elseF := fl.clone(), fl.clone()
+		w.condFacts(x.Cond, thenF, elseF)
 		if b, neg, ok := w.gate(x.Cond); ok {
 			if neg {
 				elseF.phase[b] = 1
@@ -1322,26 +1410,35 @@ func (w *walker) clauses(body *ast.BlockStmt, fl *flow) bool {
 
 // innerOf: is e an expression denoting an inner map of a tracked field (B.f[k] or a local alias)?
 func (w *walker) innerOf(e ast.Expr) (*fieldSpec, string, ast.Expr, bool) {
+	spec, base, idx, _, ok := w.innerOf2(e)
+	return spec, base, idx, ok
+}
+
+// innerOf2 also tells whether the map is a still private one (a fresh local that will be published later)
+func (w *walker) innerOf2(e ast.Expr) (spec *fieldSpec, base string, idx ast.Expr, fresh bool, ok bool) {
 	switch x := e.(type) {
 	case *ast.ParenExpr:
-		return w.innerOf(x.X)
+		return w.innerOf2(x.X)
 	case *ast.IndexExpr:
 		if fi, b, ok := w.field(x.X); ok && fi.spec != nil && fi.spec.Inner != 0 {
-			return fi.spec, b, x, true
+			return fi.spec, b, x, false, true
 		}
 	case *ast.Ident:
 		if obj := w.p.info.Uses[x]; obj != nil {
 			if a, ok := w.alias[obj]; ok {
-				return a.spec, a.base, nil, true
+				return a.spec, a.base, nil, false, true
+			}
+			if sp, ok := w.fresh[obj]; ok {
+				return sp, "<private>", nil, true, true
 			}
 		}
 	}
-	return nil, "", nil, false
+	return nil, "", nil, false, false
 }
 
 // touchInner records an access to the inner map denoted by e (and the outer index read it implies).
 func (w *walker) touchInner(e ast.Expr, write bool, fl *flow, note string) bool {
-	spec, base, idx, ok := w.innerOf(e)
+	spec, base, idx, fresh, ok := w.innerOf2(e)
 	if !ok {
 		return false
 	}
@@ -1350,7 +1447,21 @@ func (w *walker) touchInner(e ast.Expr, write bool, fl *flow, note string) bool 
 		w.emit(ie.X.Pos(), spec.Loc, false, false, base, fl, ie.X, "index (to reach the inner map)")
 		w.expr(ie.Index, fl)
 	}
-	w.emit(e.Pos(), spec.Inner, write, false, base, fl, e, note)
+	if fresh {
+		note += "; the map is still private to its creator (stored into " + spec.Struct + "." + spec.Field + " later)"
+	}
+	w.allow = idx == nil
+	i := w.emit(e.Pos(), spec.Inner, write, false, base, fl, e, note)
+	w.allow = false
+	if i >= 0 && w.g.tab.Accesses[i].Phase == 0 {
+		// publication discipline of inner maps (event 2): private before the store into the container, reached through it after
+		w.g.tab.Accesses[i].Event = publicationEvent
+		if fresh {
+			w.g.tab.Accesses[i].Phase = 1
+		} else {
+			w.g.tab.Accesses[i].Phase = 2
+		}
+	}
 	return true
 }
 
@@ -1377,6 +1488,9 @@ func (w *walker) heldEpochs(base string, fl *flow) map[lockKey]int {
 }
 
 func (w *walker) maybeContainerAlias(name *ast.Ident, rhs ast.Expr, fl *flow) {
+	if w.only != nil {
+		return
+	}
 	obj := w.p.info.Defs[name]
 	if obj == nil {
 		obj = w.p.info.Uses[name]
@@ -1458,7 +1572,9 @@ func (w *walker) touchContainer(e ast.Expr, whole ast.Expr, write bool, fl *flow
 	if stale {
 		note += "; the lock held here is NOT the critical section in which the map was read from the field, so it does not count (stale table: the field may have been re-assigned in between)"
 	}
+	w.allow = true
 	w.emit(whole.Pos(), a.spec.Loc, write, false, a.base, f2, whole, note)
+	w.allow = false
 	return true
 }
 
@@ -1516,6 +1632,23 @@ func (g *generator) findContainerHelpers(p *pkgData) {
 }
 
 func (w *walker) maybeAlias(name *ast.Ident, rhs ast.Expr) {
+	if id, ok := rhs.(*ast.Ident); ok { // y := x for an alias / private map x
+		if src := w.p.info.Uses[id]; src != nil {
+			if dst := objOf(w.p, name); dst != nil && dst != src {
+				if a, ok := w.alias[src]; ok {
+					w.alias[dst] = a
+					delete(w.fresh, dst)
+				} else if sp, ok := w.fresh[src]; ok {
+					w.fresh[dst] = sp
+					delete(w.alias, dst)
+				}
+			}
+		}
+		return
+	}
+	if w.only != nil {
+		return
+	}
 	if ie, ok := rhs.(*ast.IndexExpr); ok {
 		if fi, b, ok := w.field(ie.X); ok && fi.spec != nil && fi.spec.Inner != 0 {
 			obj := w.p.info.Defs[name]
@@ -1536,13 +1669,77 @@ func (w *walker) assign(x *ast.AssignStmt, fl *flow) {
 			if len(x.Lhs) == 1 {
 				w.maybeContainerAlias(id, x.Rhs[0], fl)
 			}
+			if w.only == nil {
+				w.noteDefinition(id, x.Rhs[0], len(x.Lhs) == 1)
+			}
 		}
 	}
 	for _, r := range x.Rhs {
 		w.expr(r, fl)
 	}
+	if len(x.Lhs) == len(x.Rhs) {
+		for i, l := range x.Lhs {
+			w.mapAssignSites(l, x.Rhs[i], fl)
+		}
+	}
 	for _, l := range x.Lhs {
 		w.lhs(l, fl)
+	}
+	if len(x.Lhs) == len(x.Rhs) {
+		for i, l := range x.Lhs {
+			w.noteAssignNonNil(l, x.Rhs[i], fl)
+		}
+	} else {
+		for _, l := range x.Lhs {
+			if id, ok := l.(*ast.Ident); ok {
+				delete(fl.nonnil, id.Name)
+			}
+		}
+		// x, ok := M[k] for a tracked map-of-maps M (whose stored values are never nil: kind map-store)
+		if len(x.Lhs) == 2 && len(x.Rhs) == 1 {
+			if ie, isIdx := x.Rhs[0].(*ast.IndexExpr); isIdx {
+				if fi, _, isF := w.field(ie.X); isF && fi.spec != nil && fi.spec.Inner != 0 {
+					if xv, ok1 := x.Lhs[0].(*ast.Ident); ok1 {
+						if okv, ok2 := x.Lhs[1].(*ast.Ident); ok2 && okv.Name != "_" {
+							if w.okOf == nil {
+								w.okOf = map[types.Object]string{}
+							}
+							if o := objOf(w.p, okv); o != nil {
+								w.okOf[o] = xv.Name
+							}
+						}
+					}
+				}
+			}
+		}
+	}
+	if len(x.Lhs) == 1 && len(x.Rhs) == 1 && w.only == nil {
+		w.publishLocal(x.Lhs[0], x.Rhs[0])
+	}
+}
+
+// mapAssignSites: the panic-site kinds map-write / map-store / map-assign for one `lhs = rhs`
+func (w *walker) mapAssignSites(lhs, rhs ast.Expr, fl *flow) {
+	switch l := lhs.(type) {
+	case *ast.IndexExpr:
+		// the map that is written: a tracked field, an inner map, a local alias of either
+		var class int
+		tracked := false
+		if fi, _, ok := w.field(l.X); ok && fi.spec != nil && w.isMapField(fi, l.X) {
+			class, tracked = fi.spec.Loc, true
+			if fi.spec.Inner != 0 { // B.f[k] = e stores an inner map
+				okv, why := w.nonNilExpr(rhs, fl)
+				w.psite(l.Pos(), "map-store", l, okv, "stored value: "+why, fi.spec.Inner, 0, 0)
+			}
+		} else if spec, _, _, _, ok := w.innerOf2(l.X); ok {
+			class, tracked = spec.Inner, true
+		} else if ca, ok := w.containerOf(l.X); ok {
+			class, tracked = ca.spec.Loc, true
+		}
+		if tracked {
+			okv, why := w.nonNilExpr(l.X, fl)
+			w.psite(l.Pos(), "map-write", l, okv, why, class, 0, 0)
+		}
 	}
 }
 
@@ -1620,9 +1817,21 @@ func (w *walker) call(c *ast.CallExpr, fl *flow) {
 				}
 				return
 			}
+		case "clear":
+			if len(c.Args) == 1 {
+				if fi, b, ok := w.field(c.Args[0]); ok && fi.spec != nil {
+					w.emit(c.Args[0].Pos(), fi.spec.Loc, true, false, b, fl, c, "clear")
+					w.expr(c.Args[0].(*ast.SelectorExpr).X, fl)
+				} else if !w.touchInner(c.Args[0], true, fl, "clear of the inner map") && !w.touchContainer(c.Args[0], c, true, fl, "clear") {
+					w.expr(c.Args[0], fl)
+				}
+				return
+			}
 		case "close":
 			if len(c.Args) == 1 {
 				if fi, b, ok := w.field(c.Args[0]); ok && fi.spec != nil && fi.kind == kChan {
+					ph := fl.phase[b]
+					w.psite(c.Pos(), "close", c, ph == 1, map[bool]string{true: "only the winner of the once-event's CompareAndSwap(false, true) gets here, once", false: "not in the claimed phase of a once-event of `" + b + "`"}[ph == 1], fi.spec.Loc, ph, 1)
 					w.emit(c.Args[0].Pos(), fi.spec.Loc, false, true, b, fl, c, "channel close")
 					w.expr(c.Args[0].(*ast.SelectorExpr).X, fl)
 					return
@@ -1676,15 +1885,41 @@ func (w *walker) call(c *ast.CallExpr, fl *flow) {
 }
 
 func (w *walker) args(c *ast.CallExpr, fl *flow) {
-	for _, a := range c.Args {
+	for i, a := range c.Args {
 		if lit, ok := a.(*ast.FuncLit); ok {
 			w.closure(lit, isRecoverExec(c)) // a callback runs on an unknown goroutine (recoverExec: synchronously)
 			continue
 		}
-		if w.touchInner(a, false, fl, "inner map passed to a call") {
+		if spec, base, _, fresh, ok := w.innerOf2(a); ok {
+			wr := argWrites(c, i)
+			name := w.p.calleeName(c)
+			note := "inner map passed to a call"
+			switch {
+			case wr:
+				note = "inner map passed to a library function that writes it"
+			case name != "" && w.p.funcs[name] != nil:
+				note = "inner map passed to " + name + " (the callee's uses of the parameter are inventoried as sites of their own)"
+			default:
+				note = "inner map passed to a call outside the package (assumed to read it only)"
+			}
+			w.touchInner(a, wr, fl, note)
+			if !wr {
+				if fresh {
+					w.followCallee(c, i, nil, spec, nil, fl)
+				} else {
+					w.followCallee(c, i, &aliasInfo{spec, base}, nil, nil, fl)
+				}
+			}
 			continue
 		}
-		if w.touchContainer(a, a, false, fl, "map passed to a call (what the callee does with it is not followed)") {
+		if ca, ok := w.containerOf(a); ok {
+			name := w.p.calleeName(c)
+			note := "map passed to a call outside the package (what the callee does with it is not followed)"
+			if name != "" && w.p.funcs[name] != nil {
+				note = "map passed to " + name + " (the callee's uses of the parameter are inventoried as sites of their own)"
+			}
+			w.touchContainer(a, a, argWrites(c, i), fl, note)
+			w.followCallee(c, i, nil, nil, &ca, fl)
 			continue
 		}
 		w.expr(a, fl)
